@@ -24,7 +24,7 @@ TIMEOUT = 150
 # ------------------------------------------------------------------ helpers
 
 def _norm(e):
-    return {"ev": e["ev"], "run": e["run"], "var": {"prog": e["var"]["prog"], "on": sorted(e["var"]["on"])},
+    return {"ev": e["ev"], "run": e["run"], "var": {"prog": e["var"]["prog"], "on": sorted(e["var"]["on"]), "route": e["var"].get("route", "plain")},
             "target": e["target"], "fs": dict(e["fs"]), "queue": [dict(q) for q in e["queue"]], "loose": sorted(e["loose"])}
 
 
@@ -73,11 +73,12 @@ def case_from_hist(hist, cid, hist_mode=False, seed=0):
     names = {"out": "out" + ext, "out2": "out2" + ext, "tgt": "run_001" + ext}
     nbk = sum(1 for k in first["fs"] if k.startswith("b"))
     init = {k: v for k, v in first["fs"].items() if k not in ("other",) and v != "absent"}
-    return {"id": cid, "names": names, "nbk": nbk, "init": init, "runs": runs, "seed": seed, "instrument": True}
+    return {"id": cid, "names": names, "nbk": nbk, "init": init, "runs": runs, "seed": seed, "instrument": True,
+            "route": first["var"].get("route", "plain")}
 
 
 def case_key(case):
-    return json.dumps([[r["prog"], r["on"], r["target"], r["crash"]] for r in case["runs"]] + [sorted(case["init"].items())])
+    return json.dumps([[r["prog"], r["on"], r["target"], r["crash"]] for r in case["runs"]] + [sorted(case["init"].items()), case.get("route", "plain")])
 
 
 def _ref_job(arg):
@@ -218,11 +219,17 @@ def random_cases(n, sd, nslow=0):
         names = {"out": stem + ext, "out2": "unused_second" + ext, "tgt": str(Path(stem).with_name("earlier run 7" + ext))}
         if "out" in init and rng.random() < 0.3:
             init["out"], init["tgt"] = "link", "lold"      # the output path is a symbolic link to a regular file
+        route = "plain"
+        if "tgt" not in init and "/" not in stem and rng.random() < 0.35:
+            route = rng.choice(["symdir", "dots", "abs"])
         no_parent = False
         if key in GOOD and crash is None and rng.random() < 0.25:
             # user error: the output directory does not exist -> the program fails by itself at the very end (flush / open)
             names["out"], init, no_parent = "no_such_dir/" + Path(stem).name + ext, {}, True
+        if no_parent:
+            route = "plain"
         cases.append({"id": "t%04d" % i, "names": names, "nbk": TNBK, "init": init, "seed": sd, "instrument": True, "no_parent": no_parent,
+                      "route": route,
                       "runs": [{"prog": prog, "on": sorted(on), "input": key, "target": "out", "crash": crash,
                                 "exc": rng.choice(["Exception", "BaseException"])}]})
     return cases
@@ -388,7 +395,8 @@ DEVS = [("Out_dev_plainopen.cfg", "NoEarlyEffect", "output opened with open() in
         ("Out_dev_seqopen.cfg", "NoEarlyEffect", "gen_seq opens (truncates) the output before the graph exists (mutant m40)"),
         ("Out_dev_linkdirect.cfg", "NoEarlyEffect", "an output path that is a symbolic link is written through: the link target is truncated before success (seed-C20-1)"),
         ("Out_dev_linkdirect_succ.cfg", "BackupResolves", "symbolic link written through: previous content not under a backup name after success (seed-C20-1)"),
-        ("Out_dev_bkcount.cfg", "OthersKept", "backup index = count of existing backups + 1: a non-contiguous backup set gets an existing backup overwritten (seed-C20-2)")]
+        ("Out_dev_bkcount.cfg", "OthersKept", "backup index = count of existing backups + 1: a non-contiguous backup set gets an existing backup overwritten (seed-C20-2)"),
+        ("Out_dev_routediscard.cfg", "SuccessState", "own queue entry not recognised when the output path runs through a symlinked directory: nothing is written (seed2-C20-1)")]
 # the same flags against further properties (thorough tier)
 DEVS_MORE = [("Out_dev_plainopen_succ.cfg", "SuccessState", "output opened with open(): no backup of the previous file"),
              ("Out_dev_plainopen_commit.cfg", "CommitOnly", "output opened with open(): the directory changes outside the commit stage"),
@@ -400,7 +408,8 @@ def run(tier):
     sd = c.seed()
     ck.rule = ("S->I: TLC enumerates every behaviour of Output for 6 program variants (gen_params, gen_coords, gen_seq, each without and with "
                "its optional stages) x 20 initial directories (target absent/present x every subset of backups #.1# #.2# #.3#, incl. non-contiguous ones; "
-               "output path = symbolic link to a regular file with backups {}, {1}, {2}, {1,3}) x every crash point "
+               "output path = symbolic link to a regular file with backups {}, {1}, {2}, {1,3}; plus 3 other spellings of the output path - through a symlinked "
+               "directory, ./sub/../name, absolute - x fresh / existing / existing+backup) x every crash point "
                "(before and after every stage, in the middle of serialisation, of the flush and of gen_seq's write) or success; each is run on the "
                "real program in a fresh process and compared after every stage; distinct = (variant, initial directory, crash point). "
                "I->S: seeded real runs on 24 other inputs (9 of them failing by themselves), 6 backup names with gaps, other file names and "
@@ -442,7 +451,7 @@ def run(tier):
 
     # ---- S -> I
     hists = export.cases()
-    if len(hists) < 3000:
+    if len(hists) < 5000:
         raise c.MachineryError("Output_Export produced only %d behaviours" % len(hists))
     inside = [h for h in hists if h[-1]["ev"]["when"] == "inside"]
     hists = [h for h in hists if h[-1]["ev"]["when"] != "inside"]
@@ -454,11 +463,19 @@ def run(tier):
         rng = random.Random(sd)
         groups = {}
         for h in hists:
-            groups.setdefault(json.dumps([h[0]["var"]["prog"], sorted(h[0]["var"]["on"]), h[-1]["ev"]], sort_keys=True), []).append(h)
+            groups.setdefault(json.dumps([h[0]["var"]["prog"], sorted(h[0]["var"]["on"]), h[0]["var"]["route"] == "plain", h[-1]["ev"]], sort_keys=True), []).append(h)
         sel = []
         for k in sorted(groups):
             g = sorted(groups[k], key=lambda h: json.dumps(h[0]["fs"], sort_keys=True))
             last = g[0][-1]["ev"]
+            if g[0][0]["var"]["route"] != "plain":
+                # other spellings of the output path (3 routes x fresh / existing / existing + backup = 9 per crash point):
+                # all 9 where the result is committed, 1 of them elsewhere
+                if last["kind"] == "finish" or (last["stage"], last["when"]) in (("flush", "mid"), ("flush", "after"), ("pwrite", "mid")):
+                    sel += g
+                else:
+                    sel += rng.sample(g, 1)
+                continue
             links = [h for h in g if h[0]["fs"]["out"] == "link"]
             if last["kind"] == "finish" or (last["stage"], last["when"]) in (("flush", "mid"), ("flush", "after"), ("pwrite", "mid")):
                 sel += g                                   # where the backup rule acts: all 20 initial directories
